@@ -1,5 +1,5 @@
 (* Proofs about Model/PlanText.v (C18, plans): the decimal codec and the plan text codec round trips. *)
-From Coq Require Import List NArith ZArith QArith Ascii Bool Lia NArithRing.
+From Coq Require Import List NArith ZArith QArith Qcanon Ascii Bool Lia NArithRing.
 From Coq Require String.
 Import ListNotations.
 Require Import UPV.Model.PlanText.
@@ -888,4 +888,414 @@ Proof.
     exists k. split; [eapply find_k_sound, Ek|]. apply Nat.leb_gt in El. exact El.
   - intros _. right. left. intros k Hk.
     destruct (find_k_total (N.pos (Qden q)) k) as [k' Hk']; [discriminate|exact Hk|]. congruence.
+Qed.
+
+(* ------------------------------------------------------------------ print_dec_real: agreement on the exact fragment *)
+
+Lemma pow10N_pow k : pow10N k = 10 ^ N.of_nat k.
+Proof. induction k; [reflexivity|]. rewrite pow10N_S, IHk, Nat2N.inj_succ, N.pow_succ_r'. reflexivity. Qed.
+
+Lemma pow10N_add a b : pow10N (a + b) = pow10N a * pow10N b.
+Proof. rewrite !pow10N_pow, Nat2N.inj_add, N.pow_add_r. reflexivity. Qed.
+
+Lemma pow10N_lt_inv a b : pow10N a < pow10N b -> (a < b)%nat.
+Proof. rewrite !pow10N_pow. intros H. apply N.pow_lt_mono_r_iff in H; lia. Qed.
+
+Lemma pow10N_le_mono a b : (a <= b)%nat -> pow10N a <= pow10N b.
+Proof. intros H. rewrite !pow10N_pow. apply N.pow_le_mono_r; lia. Qed.
+
+Lemma fold_digits_acc l : forall a,
+  fold_left (fun a d => 10 * a + d) l a = a * pow10N (List.length l) + val_digits l.
+Proof.
+  induction l as [|d l IH]; intros a.
+  - unfold val_digits. simpl. change (pow10N 0) with 1. lia.
+  - unfold val_digits at 1. cbn [fold_left List.length]. rewrite (IH (10 * a + d)), (IH (10 * 0 + d)), pow10N_S. ring.
+Qed.
+
+Lemma val_digits_cons d l : val_digits (d :: l) = d * pow10N (List.length l) + val_digits l.
+Proof. unfold val_digits at 1. cbn [fold_left]. rewrite fold_digits_acc. ring. Qed.
+
+Lemma val_digits_upper l : Forall (fun d => d < 10) l -> val_digits l < pow10N (List.length l).
+Proof.
+  induction 1 as [|d l Hd _ IH].
+  - reflexivity.
+  - rewrite val_digits_cons. cbn [List.length]. rewrite pow10N_S. nia.
+Qed.
+
+Lemma digits_fuel_head f : forall n acc, n <> 0 -> exists h t, digits_fuel f n acc = h :: t /\ h <> 0.
+Proof.
+  induction f as [|f IH]; intros n acc Hn; cbn [digits_fuel].
+  - eauto.
+  - destruct (n <? 10) eqn:E; [eauto|]. apply IH. apply N.ltb_ge in E.
+    intros H0. apply N.div_small_iff in H0; lia.
+Qed.
+
+Lemma digits_upper n : n < pow10N (List.length (digits n)).
+Proof. rewrite <- (val_digits_digits n) at 1. apply val_digits_upper, digits_small. Qed.
+
+Lemma digits_lower n : n <> 0 -> pow10N (pred (List.length (digits n))) <= n.
+Proof.
+  intros Hn. rewrite <- (val_digits_digits n) at 2.
+  unfold digits. destruct (digits_fuel_head (N.to_nat (N.size n)) n [] Hn) as (h & t & -> & Hh).
+  rewrite val_digits_cons. cbn [List.length pred]. nia.
+Qed.
+
+Lemma digits_len_pos n : (1 <= List.length (digits n))%nat.
+Proof.
+  unfold digits. destruct (digits_fuel _ n []) eqn:E; [exfalso; eapply digits_fuel_ne; eauto|simpl; lia].
+Qed.
+
+Lemma find_k_min d : forall f k0 k, find_k f d k0 = Some k ->
+  (k0 <= k)%nat /\ forall j, (k0 <= j < k)%nat -> pow10N j mod d <> 0.
+Proof.
+  induction f as [|f IH]; intros k0 k; cbn [find_k]; fold (pow10N k0).
+  - destruct (pow10N k0 mod d =? 0); [|discriminate]. intros [= <-]. split; [lia|]. intros; lia.
+  - destruct (pow10N k0 mod d =? 0) eqn:E.
+    + intros [= <-]. split; [lia|]. intros; lia.
+    + intros H. apply IH in H as [H1 H2]. split; [lia|]. intros j Hj.
+      destruct (Nat.eq_dec j k0) as [->|]; [apply N.eqb_neq, E|apply H2; lia].
+Qed.
+
+Lemma div_eucl_eq a b : N.div_eucl a b = (a / b, a mod b).
+Proof. unfold N.div, N.modulo. destruct (N.div_eucl a b). reflexivity. Qed.
+
+Lemma m_not_mult10 n d k :
+  Z.gcd (Z.of_N n) (Z.of_N d) = 1%Z -> d <> 0 ->
+  pow10N (S k) mod d = 0 -> pow10N k mod d <> 0 -> (n * (pow10N (S k) / d)) mod 10 <> 0.
+Proof.
+  intros Hg Hd Hk Hk' H10.
+  apply N.div_exact in Hk; [|exact Hd]. set (c := pow10N (S k) / d) in *.
+  apply N.mod_divide in H10; [|discriminate]. destruct H10 as [x Hx].
+  apply Hk'. 
+  assert (E : n * pow10N k = x * d).
+  { assert (E10 : n * pow10N k * 10 = x * d * 10).
+    { replace (n * pow10N k * 10) with (n * pow10N (S k)) by (rewrite pow10N_S; ring).
+      rewrite Hk. replace (n * (d * c)) with (n * c * d) by ring. rewrite Hx. ring. }
+    lia. }
+  assert (Hz : (Z.of_N d | Z.of_N (pow10N k))%Z).
+  { apply (Z.gauss _ (Z.of_N n)); [|rewrite Z.gcd_comm; exact Hg].
+    exists (Z.of_N x). rewrite <- !N2Z.inj_mul. f_equal. exact E. }
+  destruct Hz as [z Hz].
+  apply N.mod_divide; [exact Hd|].
+  exists (Z.to_N z).
+  assert (0 <= z)%Z by nia.
+  apply N2Z.inj. rewrite N2Z.inj_mul, Z2N.id by assumption. exact Hz.
+Qed.
+
+Lemma strip_zeros_pow : forall j fuel m e,
+  (j <= fuel)%nat -> (e < 0)%Z -> m mod 10 <> 0 ->
+  strip_zeros fuel (m * pow10N j) (e - Z.of_nat j) = (m, e).
+Proof.
+  induction j as [|j IH]; intros fuel m e Hf He Hm.
+  - change (pow10N 0) with 1. rewrite N.mul_1_r, Z.sub_0_r.
+    destruct fuel; cbn [strip_zeros]; [reflexivity|].
+    apply N.eqb_neq in Hm. rewrite Hm, andb_false_r. reflexivity.
+  - destruct fuel as [|fuel]; [lia|]. cbn [strip_zeros].
+    assert (E1 : (m * pow10N (S j)) mod 10 = 0).
+    { rewrite pow10N_S. replace (m * (10 * pow10N j)) with (m * pow10N j * 10) by ring. apply N.mod_mul. discriminate. }
+    assert (E2 : (m * pow10N (S j)) / 10 = m * pow10N j).
+    { rewrite pow10N_S. replace (m * (10 * pow10N j)) with (m * pow10N j * 10) by ring. apply N.div_mul. discriminate. }
+    rewrite E1, E2.
+    replace (e - Z.of_nat (S j) <? 0)%Z with true by (symmetry; apply Z.ltb_lt; lia).
+    cbn [andb N.eqb].
+    replace (e - Z.of_nat (S j) + 1)%Z with (e - Z.of_nat j)%Z by lia.
+    apply IH; [lia|exact He|exact Hm].
+Qed.
+
+Lemma dec_div50_exact n d k :
+  n <> 0 -> d <> 0 -> Z.gcd (Z.of_N n) (Z.of_N d) = 1%Z ->
+  pow10N (S k) mod d = 0 -> pow10N k mod d <> 0 ->
+  (List.length (digits (n * (pow10N (S k) / d))) <= 50)%nat ->
+  dec_div50 n d = (n * (pow10N (S k) / d), (- Z.of_nat (S k))%Z).
+Proof.
+  intros Hn Hd Hg Hk Hk' Hlen.
+  pose proof (m_not_mult10 n d k Hg Hd Hk Hk') as Hm10.
+  set (m := n * (pow10N (S k) / d)) in *.
+  assert (Hmd : m * d = n * pow10N (S k)).
+  { unfold m. apply N.div_exact in Hk; [|exact Hd]. rewrite Hk at 2. ring. }
+  assert (Hm50 : m < pow10N 50).
+  { eapply N.lt_le_trans; [apply digits_upper|]. apply pow10N_le_mono, Hlen. }
+  pose proof (digits_lower n Hn) as Hnl. pose proof (digits_upper d) as Hdu.
+  pose proof (digits_len_pos n) as Hln.
+  set (ln := List.length (digits n)) in *. set (ld := List.length (digits d)) in *.
+  assert (Hsh : (pred ln + S k < 50 + ld)%nat).
+  { apply pow10N_lt_inv. rewrite !pow10N_add.
+    apply N.le_lt_trans with (n * pow10N (S k)).
+    - apply N.mul_le_mono_r. exact Hnl.
+    - rewrite <- Hmd. apply N.mul_lt_mono; assumption. }
+  unfold dec_div50. unfold ndigits. fold ln ld.
+  set (shift := (Z.of_nat ld - Z.of_nat ln + 51)%Z).
+  assert (Hs0 : (0 <= shift)%Z) by (unfold shift; lia).
+  replace (0 <=? shift)%Z with true by (symmetry; apply Z.leb_le; exact Hs0).
+  set (S' := Z.to_nat shift).
+  assert (HkS : (S k <= S')%nat) by (unfold S', shift; lia).
+  assert (HA : n * pow10N S' = m * pow10N (S' - S k) * d).
+  { replace S' with (S k + (S' - S k))%nat at 1 by lia. rewrite pow10N_add.
+    replace (n * (pow10N (S k) * pow10N (S' - S k))) with (n * pow10N (S k) * pow10N (S' - S k)) by ring.
+    rewrite <- Hmd. ring. }
+  rewrite div_eucl_eq, HA, N.div_mul, N.mod_mul by exact Hd.
+  cbn [N.eqb].
+  replace (- shift)%Z with (- Z.of_nat (S k) - Z.of_nat (S' - S k))%Z by (unfold S'; lia).
+  rewrite strip_zeros_pow; [|lia|lia|exact Hm10].
+  unfold fix50, ndigits.
+  replace (Z.of_nat (List.length (digits m)) <=? 50)%Z with true by (symmetry; apply Z.leb_le; lia).
+  reflexivity.
+Qed.
+
+Theorem print_dec_real_agrees q s :
+  q_reduced q = true -> print_dec q = Some s -> print_dec_real q = s.
+Proof.
+  intros Hred Hp. apply q_eqb_eq in Hred. apply Qred_identity2 in Hred.
+  unfold print_dec in Hp. unfold print_dec_real.
+  destruct (Qnum q <? 0)%Z eqn:Eneg; [discriminate|]. apply Z.ltb_ge in Eneg.
+  rewrite Z.abs_eq by exact Eneg.
+  destruct (N.pos (Qden q) =? 1) eqn:Eden; [congruence|].
+  destruct (find_k _ _ _) as [k|] eqn:Ek; [|discriminate].
+  destruct (_ <=? 50)%nat eqn:El; [|discriminate]. injection Hp as <-.
+  apply Nat.leb_le in El.
+  pose proof (find_k_sound _ _ _ _ Ek) as Hk. fold (pow10N k) in Hk.
+  destruct (find_k_min _ _ _ _ Ek) as [_ Hmin].
+  apply N.eqb_neq in Eden.
+  assert (Hd1 : 1 < N.pos (Qden q)) by lia.
+  destruct k as [|k].
+  { exfalso. change (pow10N 0) with 1 in Hk. rewrite N.mod_1_l in Hk by exact Hd1. discriminate. }
+  assert (Hg : Z.gcd (Z.of_N (Z.to_N (Qnum q))) (Z.of_N (N.pos (Qden q))) = 1%Z).
+  { rewrite Z2N.id by exact Eneg. exact Hred. }
+  assert (Hn : Z.to_N (Qnum q) <> 0).
+  { intros E. rewrite E in Hg. simpl in Hg. lia. }
+  fold (pow10N (S k)) in El |- *.
+  rewrite (dec_div50_exact _ _ k Hn); [| discriminate | exact Hg | exact Hk | apply Hmin; lia | exact El].
+  unfold format_dec.
+  replace (0 <=? - Z.of_nat (S k))%Z with false by (symmetry; apply Z.leb_gt; lia).
+  rewrite Z.opp_involutive, Nat2Z.id. reflexivity.
+Qed.
+
+(* ------------------------------------------------------------------ outside the exact fragment *)
+
+Lemma parse_num_digits l rest :
+  l <> [] -> Forall (fun d => d < 10) l -> num_end rest ->
+  parse_num (map dchar l ++ rest) = Some (Qred (Z.of_N (val_digits l) # 1), rest).
+Proof.
+  intros Hne Hl Hr. unfold parse_num.
+  rewrite span_app; [|apply forallb_digit, Hl|apply num_end_digit, Hr].
+  assert (Hn : is_nil (map dchar l) = false) by (destruct l; [congruence|reflexivity]).
+  rewrite Hn.
+  assert (Hv : mkdec (map dchar l) [] = Qred (Z.of_N (val_digits l) # 1)).
+  { unfold mkdec. rewrite app_nil_r, val_chars_digits by exact Hl. reflexivity. }
+  destruct rest as [|c r]; [rewrite Hv; reflexivity|].
+  simpl in Hr. unfold numch in Hr. apply orb_false_iff in Hr as [_ Hp]. rewrite Hp, Hv. reflexivity.
+Qed.
+
+Lemma val_digits_app_zeros l e : val_digits (l ++ repeat 0 e) = val_digits l * pow10N e.
+Proof.
+  unfold val_digits at 1. rewrite fold_left_app. fold (val_digits l).
+  rewrite fold_digits_acc, repeat_length.
+  rewrite <- (app_nil_r (repeat 0 e)), val_digits_zeros. unfold val_digits at 2. simpl. lia.
+Qed.
+
+Lemma map_repeat' {A B} (f : A -> B) x n : map f (repeat x n) = repeat (f x) n.
+Proof. induction n; simpl; [reflexivity|]. rewrite IHn. reflexivity. Qed.
+
+Theorem parse_format_dec c e : parse_dec (format_dec c e) = Some (dec_val c e).
+Proof.
+  unfold parse_dec, format_dec, dec_val.
+  destruct (0 <=? e)%Z eqn:Ee.
+  - destruct (c =? 0) eqn:Ec.
+    + apply N.eqb_eq in Ec. subst c. reflexivity.
+    + assert (Hs : digit_chars c ++ repeat "0"%char (Z.to_nat e) = map dchar (digits c ++ repeat 0 (Z.to_nat e)) ++ []).
+      { rewrite app_nil_r, map_app, map_repeat'. reflexivity. }
+      rewrite Hs, parse_num_digits; [| |apply Forall_app; split; [apply digits_small|apply Forall_repeat0]|exact I].
+      * rewrite val_digits_app_zeros, val_digits_digits. reflexivity.
+      * pose proof (digits_len_pos c). destruct (digits c); [simpl in *; lia|discriminate].
+  - rewrite <- (app_nil_r (format_f _ _)), parse_num_format; [|apply digits_small|exact I].
+    rewrite val_digits_digits. reflexivity.
+Qed.
+
+(* what the reader gets back from the text the writer prints for ANY non-negative q *)
+Theorem parse_print_dec_real q :
+  (0 <= Qnum q)%Z -> parse_dec (print_dec_real q) = Some (dec_rounded q).
+Proof.
+  intros H. unfold print_dec_real, dec_rounded.
+  replace (Qnum q <? 0)%Z with false by (symmetry; apply Z.ltb_ge; exact H).
+  destruct (N.pos (Qden q) =? 1).
+  - unfold parse_dec. rewrite <- (app_nil_r (digit_chars _)), parse_num_int by exact I. reflexivity.
+  - destruct (dec_div50 _ _) as [c e]. apply parse_format_dec.
+Qed.
+
+Lemma parse_num_shape l q r : parse_num l = Some (q, r) -> exists v j, q = Qred (Z.of_N v # pow10 j).
+Proof.
+  unfold parse_num. destruct (span is_digit l) as [ip r1]. destruct (is_nil ip); [discriminate|].
+  destruct r1 as [|c r2].
+  - intros [= <- _]. eexists _, _. reflexivity.
+  - destruct (code c =? 46).
+    + destruct (span is_digit r2) as [fp r3]. intros [= <- _]. eexists _, _. reflexivity.
+    + intros [= <- _]. eexists _, _. reflexivity.
+Qed.
+
+Lemma Zdivide_N_mod d p : d <> 0 -> (Z.of_N d | Z.of_N p)%Z -> p mod d = 0.
+Proof.
+  intros Hd [z Hz]. apply N.mod_divide; [exact Hd|]. exists (Z.to_N z).
+  assert (0 <= z)%Z by nia.
+  apply N2Z.inj. rewrite N2Z.inj_mul, Z2N.id by assumption. exact Hz.
+Qed.
+
+(* a Fraction whose denominator divides no power of ten is denoted by NO decimal string *)
+Theorem no_decimal_denotes q s :
+  q_reduced q = true -> (forall k, pow10N k mod N.pos (Qden q) <> 0) -> parse_dec s <> Some q.
+Proof.
+  intros Hred Hnd Hp. apply q_eqb_eq in Hred. pose proof (Qred_identity2 _ Hred) as Hg.
+  unfold parse_dec in Hp. destruct (parse_num s) as [[q' r]|] eqn:E; [|discriminate].
+  destruct r; [|discriminate]. injection Hp as ->.
+  destruct (parse_num_shape _ _ _ E) as (v & j & Hq).
+  assert (Heq : q == Z.of_N v # pow10 j) by (rewrite Hq at 1; apply Qred_correct).
+  unfold Qeq in Heq. cbn [Qnum Qden] in Heq.
+  apply (Hnd j). apply Zdivide_N_mod; [discriminate|].
+  change (Z.of_N (N.pos (Qden q))) with (Z.pos (Qden q)). change (Z.of_N (pow10N j)) with (Z.pos (pow10 j)).
+  apply (Z.gauss _ (Qnum q)); [|rewrite Z.gcd_comm; exact Hg].
+  exists (Z.of_N v). rewrite Heq. reflexivity.
+Qed.
+
+Theorem dec_rounds_outside_nondecimal q :
+  q_reduced q = true -> (0 <= Qnum q)%Z -> (forall k, pow10N k mod N.pos (Qden q) <> 0) ->
+  parse_dec (print_dec_real q) = Some (dec_rounded q) /\ dec_rounded q <> q.
+Proof.
+  intros Hred Hpos Hnd. pose proof (parse_print_dec_real q Hpos) as Hp. split; [exact Hp|].
+  intros E. rewrite E in Hp. exact (no_decimal_denotes q _ Hred Hnd Hp).
+Qed.
+
+(* ------------------------------------------------------------------ plan level: print_plan_real *)
+Lemma print_tstep_real_agrees t x : wf_tstep t = true -> print_tstep t = Some x -> print_tstep_real t = x.
+Proof.
+  unfold wf_tstep. intros H. apply andb_true_iff in H as [H Hd]. apply andb_true_iff in H as [Hs _].
+  destruct (dec_ok_split _ Hs) as (Hr & a & Ha).
+  unfold print_tstep, print_tstep_real, print_dur. rewrite Ha, (print_dec_real_agrees _ _ Hr Ha).
+  destruct (t_dur t) as [d|].
+  - destruct (dec_ok_split _ Hd) as (Hrd & b & Hb). rewrite Hb, (print_dec_real_agrees _ _ Hrd Hb).
+    intros [= <-]. reflexivity.
+  - intros [= <-]. reflexivity.
+Qed.
+
+Lemma print_tt_real_agrees l : forall x,
+  forallb wf_tstep l = true -> print_tt l = Some x -> concat (map print_tstep_real l) = x.
+Proof.
+  induction l as [|t r IH]; intros x H Hp.
+  - injection Hp as <-. reflexivity.
+  - cbn [forallb] in H. apply andb_true_iff in H as [H1 H2]. cbn [print_tt] in Hp.
+    destruct (print_tstep t) as [a|] eqn:Ea; [|discriminate].
+    destruct (print_tt r) as [b|] eqn:Eb; [|discriminate]. injection Hp as <-.
+    cbn [map concat]. rewrite (print_tstep_real_agrees t a H1 Ea), (IH b H2 eq_refl). reflexivity.
+Qed.
+
+Theorem print_plan_real_agrees p t : wf_plan p = true -> print_plan p = Some t -> print_plan_real p = t.
+Proof.
+  destruct p as [l|l]; simpl; intros H Hp; [congruence|]. apply print_tt_real_agrees; assumption.
+Qed.
+
+Theorem parse_print_plan_real p : wf_plan p = true -> parse_plan (print_plan_real p) = Some (plan_norm p).
+Proof.
+  intros H. destruct (print_plan_total p H) as (t & Ht).
+  rewrite (print_plan_real_agrees p t H Ht). apply parse_print_plan; assumption.
+Qed.
+
+Theorem parse_print_dec_real_exact q :
+  q_reduced q = true -> (exists s, print_dec q = Some s) -> parse_dec (print_dec_real q) = Some q.
+Proof.
+  intros Hr (s & Hs). rewrite (print_dec_real_agrees q s Hr Hs). apply parse_dec_print_dec; assumption.
+Qed.
+
+(* ------------------------------------------------------------------ the loss outside the exact fragment *)
+
+Lemma fix50_bound c e : fst (fix50 c e) < pow10N 50.
+Proof.
+  unfold fix50, ndigits.
+  destruct (Z.of_nat (List.length (digits c)) <=? 50)%Z eqn:E.
+  - apply Z.leb_le in E. cbn [fst]. eapply N.lt_le_trans; [apply digits_upper|]. apply pow10N_le_mono. lia.
+  - apply Z.leb_gt in E.
+    set (len := List.length (digits c)) in *.
+    set (drop := Z.to_nat (Z.of_nat len - 50)).
+    set (q := c / pow10N drop).
+    assert (Hq : q < pow10N 50).
+    { unfold q. apply N.div_lt_upper_bound; [apply pow10N_pos|].
+      rewrite <- pow10N_add. replace (drop + 50)%nat with len by (unfold drop; lia). apply digits_upper. }
+    set (q' := if _ : bool then q + 1 else q).
+    assert (Hq' : q' <= pow10N 50) by (unfold q'; destruct (_ || _); lia).
+    destruct (Z.of_nat (List.length (digits q')) <=? 50)%Z eqn:E2; cbn [fst].
+    + apply Z.leb_le in E2. eapply N.lt_le_trans; [apply digits_upper|]. apply pow10N_le_mono. lia.
+    + apply N.div_lt_upper_bound; [discriminate|]. pose proof (pow10N_pos 50). lia.
+Qed.
+
+Lemma dec_div50_bound n d : fst (dec_div50 n d) < pow10N 50.
+Proof.
+  unfold dec_div50.
+  destruct (if (0 <=? _)%Z then _ else _) as [c r].
+  destruct (if r =? 0 then _ else _) as [c1 e1]. apply fix50_bound.
+Qed.
+
+Theorem dec_rounded_neq q :
+  q_reduced q = true -> (0 <= Qnum q)%Z -> print_dec q = None -> dec_rounded q <> q.
+Proof.
+  intros Hred Hpos Hp.
+  pose proof Hred as Hred'. apply q_eqb_eq in Hred'. pose proof (Qred_identity2 _ Hred') as Hgc.
+  unfold print_dec in Hp.
+  replace (Qnum q <? 0)%Z with false in Hp by (symmetry; apply Z.ltb_ge; exact Hpos).
+  destruct (N.pos (Qden q) =? 1) eqn:Eden; [discriminate|].
+  destruct (find_k _ _ _) as [k|] eqn:Ek.
+  2:{ apply dec_rounds_outside_nondecimal; [exact Hred|exact Hpos|].
+      intros k Hk. destruct (find_k_total (N.pos (Qden q)) k) as [k' Hk']; [discriminate|exact Hk|]. congruence. }
+  destruct (_ <=? 50)%nat eqn:El; [discriminate|]. clear Hp. apply Nat.leb_gt in El.
+  pose proof (find_k_sound _ _ _ _ Ek) as Hk. fold (pow10N k) in Hk, El.
+  destruct (find_k_min _ _ _ _ Ek) as [_ Hmin].
+  pose proof Eden as Eden'. apply N.eqb_neq in Eden'.
+  assert (Hd1 : 1 < N.pos (Qden q)) by lia.
+  destruct k as [|k].
+  { exfalso. change (pow10N 0) with 1 in Hk. rewrite N.mod_1_l in Hk by exact Hd1. discriminate. }
+  assert (Hg : Z.gcd (Z.of_N (Z.to_N (Qnum q))) (Z.of_N (N.pos (Qden q))) = 1%Z).
+  { rewrite Z2N.id by exact Hpos. exact Hgc. }
+  set (n := Z.to_N (Qnum q)) in *. set (d := N.pos (Qden q)) in *.
+  assert (Hd : d <> 0) by discriminate.
+  pose proof (m_not_mult10 n d k Hg Hd Hk (Hmin k ltac:(lia))) as Hm10.
+  set (m := n * (pow10N (S k) / d)) in *.
+  assert (Hmd : m * d = n * pow10N (S k)).
+  { unfold m. apply N.div_exact in Hk; [|exact Hd]. rewrite Hk at 2. ring. }
+  assert (Hm0 : m <> 0) by (intros E; rewrite E in Hm10; apply Hm10; reflexivity).
+  assert (Hm50 : pow10N 50 <= m).
+  { eapply N.le_trans; [|apply digits_lower, Hm0]. apply pow10N_le_mono. lia. }
+  unfold dec_rounded. rewrite Z.abs_eq by exact Hpos. fold n d. rewrite Eden.
+  pose proof (dec_div50_bound n d) as Hc. destruct (dec_div50 n d) as [c e]. cbn [fst] in Hc.
+  unfold dec_val. intros Heq.
+  destruct (0 <=? e)%Z.
+  - (* an integer: impossible, the denominator is not 1 *)
+    assert (Hq : q == Z.of_N (c * pow10N (Z.to_nat e)) # 1) by (rewrite <- Heq at 1; apply Qred_correct).
+    unfold Qeq in Hq. cbn [Qnum Qden] in Hq.
+    assert (Hdiv : (Z.pos (Qden q) | Z.gcd (Qnum q) (Z.pos (Qden q)))%Z).
+    { apply Z.gcd_greatest; [|apply Z.divide_refl]. exists (Z.of_N (c * pow10N (Z.to_nat e))). lia. }
+    rewrite Hgc in Hdiv. apply Z.divide_1_r_nonneg in Hdiv; [|lia]. unfold d in Eden'. congruence.
+  - set (j := Z.to_nat (- e)) in *.
+    assert (Hq : q == Z.of_N c # pow10 j) by (rewrite <- Heq at 1; apply Qred_correct).
+    unfold Qeq in Hq. cbn [Qnum Qden] in Hq.
+    assert (Hc1 : c * d = n * pow10N j).
+    { apply N2Z.inj. rewrite !N2Z.inj_mul. unfold n. rewrite Z2N.id by exact Hpos.
+      change (Z.of_N d) with (Z.pos (Qden q)). change (Z.of_N (pow10N j)) with (Z.pos (pow10 j)). lia. }
+    assert (Hx : c * pow10N (S k) = m * pow10N j).
+    { apply (N.mul_cancel_r _ _ d Hd).
+      replace (c * pow10N (S k) * d) with (c * d * pow10N (S k)) by ring.
+      replace (m * pow10N j * d) with (m * d * pow10N j) by ring.
+      rewrite Hc1, Hmd. ring. }
+    assert (Hcm : c < m) by lia.
+    pose proof (pow10N_pos j) as Hpj. pose proof (pow10N_pos (S k)) as Hpk.
+    assert (Hjk : pow10N j < pow10N (S k)) by nia.
+    apply pow10N_lt_inv in Hjk.
+    replace (S k) with (j + S (k - j))%nat in Hx by lia.
+    rewrite pow10N_add, pow10N_S in Hx.
+    assert (Hm' : m = c * pow10N (k - j) * 10).
+    { apply (N.mul_cancel_r _ _ (pow10N j) Hpj). rewrite <- Hx. ring. }
+    apply Hm10. rewrite Hm'. apply N.mod_mul. discriminate.
+Qed.
+
+(* (2): the precise loss outside the exact fragment *)
+Theorem dec_rounds_outside_fragment q :
+  q_reduced q = true -> (0 <= Qnum q)%Z -> print_dec q = None ->
+  parse_dec (print_dec_real q) = Some (dec_rounded q) /\ dec_rounded q <> q.
+Proof.
+  intros Hred Hpos Hp. split; [apply parse_print_dec_real, Hpos|apply dec_rounded_neq; assumption].
 Qed.
